@@ -495,7 +495,7 @@ def judge(res, pdef):
         if verdict:
             findings.append(Finding('violation', res, i, verdict))
             break
-        if c in ('dmgsweep', 'crashsweep', 'metasweep', 'flipsweep', 'faultsweep', 'cancelsweep', 'toolsweep', 'conc', 'killcheck') and impl.startswith('sweep ok'):
+        if c in ('dmgsweep', 'crashsweep', 'metasweep', 'offfault', 'flipsweep', 'faultsweep', 'cancelsweep', 'toolsweep', 'conc', 'killcheck') and impl.startswith('sweep ok'):
             impl = 'sweep ok'      # the count of damaged copies is reported, not compared
         # index-file sizes depend on whether a background dump (started by a close / rotation / explicit request) ran
         # before or after a later delete or write reached the same blob: once such a race was possible (no quiescent
